@@ -604,6 +604,18 @@ class LibMixin:
             return
         raise VCError('remove on %r' % t)
 
+    def cm_intersection(self, c, args, kw, st, frame, node):
+        """s.intersection(t) for plain (non-record) sets: a fresh set with has = has_s AND has_t"""
+        v = args[0]
+        if c.t.kind != 'set' or not isinstance(v, Cont) or v.t.kind != 'set' or len(args) != 1:
+            raise VCError('set.intersection on %r / %r' % (c.t, v))
+        hc = c.t.acc('has')(self.c_term(c, st))
+        hv = v.t.acc('has')(self.c_term(v, st))
+        k = z3.Const('k!ix', hc.sort().domain())
+        new = fresh('isect', hc.sort())
+        st.assume(z3.ForAll([k], z3.Select(new, k) == z3.And(z3.Select(hc, k), z3.Select(hv, k)), patterns=[z3.Select(new, k)]))
+        yield st, self.new_cont(c.t, st, c.t.mk(new))
+
     def cm_discard(self, c, args, kw, st, frame, node):
         self.s_discard(c, args[0], st, node)
         yield st, NoneV()
